@@ -47,6 +47,9 @@ fn is_numeric_looking(s: &str) -> bool {
 /// Returns true if `s` is a special YAML token or looks like a number/boolean,
 /// which means it should be quoted to be treated as a string.
 fn is_ambiguous(s: &str) -> bool {
+    // The reader trims Unicode white space (NBSP, U+2028, ...) before it interprets a plain
+    // scalar, so the text is judged as the reader will see it.
+    let s = s.trim();
     if s.is_empty() {
         return true;
     }
@@ -132,6 +135,8 @@ fn is_ambiguous_value(s: &str, yaml_12: bool) -> bool {
     if is_ambiguous(s) {
         return true;
     }
+    // As in `is_ambiguous`: judged as the reader will see it, without surrounding white space.
+    let s = s.trim();
 
     // YAML 1.1 boolean spellings: quote them as strings for compatibility and
     // round-tripping (e.g. "YES", "no", "On", "off", "y", "n").
